@@ -998,7 +998,9 @@ func recvCh[T any](
 
 func (broker *Broker) handleSendError(payload sts.Payload, nPartsReceived int) sts.Payload {
 	nErr := 0
-	var n int
+	// The number of parts the server reported with its (partial content)
+	// answer, unless we have to ask for it
+	n := nPartsReceived
 	var err error
 	for {
 		if broker.shouldStopNow() {
